@@ -382,6 +382,17 @@ func (f *Frame) applyContract(fc *FuncContract, callee *ssa.Function, sig *types
 
 func (f *Frame) havocLval(lv lval) {
 	c := f.c
+	if lv.mapM != nil {
+		m := lv.mapM
+		for _, hn := range [][2]string{{m.has, m.hasSort}, {m.val, m.valSort}, {m.length, m.lenSort}} {
+			f.frameWrite(hn[0], lv.mapRef, f.curPos)
+			h := c.heap(f.st, hn[0], hn[1])
+			inner := hn[1][len("(Array Int ") : len(hn[1])-1]
+			nv := c.fresh("hvmap", inner)
+			f.st.heaps[hn[0]] = c.bind(hn[0], fmt.Sprintf("(store %s %s %s)", h, lv.mapRef, nv), hn[1])
+		}
+		return
+	}
 	if len(lv.heapAll) > 0 {
 		for _, n := range lv.heapAll {
 			f.frameWrite(n, "", f.curPos)
@@ -473,6 +484,13 @@ func (f *Frame) execBuiltin(b *ssa.Builtin, cc *ssa.CallCommon, pos token.Pos, a
 				return Val{T: I, S: c.idxLit(at.Len())}
 			}
 		case *types.Map:
+			if m, ok := c.mapModelOf(v.T); ok {
+				l := c.mapLen(f.st, m, v.S)
+				if c.mode == "int" {
+					c.assume(fmt.Sprintf("(<= 0 %s)", l))
+				}
+				return Val{T: I, S: l}
+			}
 			c.note("len(map) abstracted")
 			r := c.fresh("maplen", c.sortOf(I))
 			if c.mode == "int" {
@@ -498,6 +516,9 @@ func (f *Frame) execBuiltin(b *ssa.Builtin, cc *ssa.CallCommon, pos token.Pos, a
 		}
 		return r
 	case "delete":
+		if f.execMapDelete(args[0], args[1], pos) {
+			return Val{T: types.NewTuple()}
+		}
 		c.note("map delete abstracted")
 		return Val{T: types.NewTuple()}
 	case "ssa:wrapnilchk":
